@@ -85,6 +85,10 @@ def run(tier, work):
     exe = build.ensure_harness("vdrv", ["vdrv.cpp"])
     verdict = vlib.Verdict(PROP)
     mc = vlib.model_check(SPEC, "HeartBeatImpl", "MCImpl.cfg" if tier == "quick" else "MCImplThorough.cfg", work, "p1", timeout=3000)
+    for cfg in ("MCImplMutIdx.cfg", "MCImplMutToDo.cfg", "MCImplMutIsolate.cfg"):      # one-line weakenings of the model must be violated
+        mm = vlib.model_check(SPEC, "HeartBeatImpl", cfg, work, "p1m", timeout=1500)
+        if mm["ok"]:
+            raise vlib.Broken("HeartBeatImpl with %s satisfies NoViolation: the invariant is vacuous" % cfg)
     print("TLC P1 HeartBeatImpl: %d states, %d transitions, %s" % (mc["states"], mc["transitions"], "ok" if mc["ok"] else "VIOLATED"))
     if not mc["ok"]:
         raise vlib.Broken("HeartBeatImpl violates its invariants:\n" + mc["out"][-2000:])
